@@ -11,7 +11,7 @@ namespace Piqp.C01
 
 variable {K : Type}
 variable [Add K] [Sub K] [Mul K] [Div K] [Neg K] [Zero K] [One K] [LT K] [DecidableLT K] [LE K] [DecidableLE K]
-variable [NatCast K] [DecidableEq K]
+variable [NatCast K] [BEq K]
 variable {n p m : Nat}
 
 /-- The loop head returns SOLVED only if the termination test holds for the diagnostics it computed. -/
@@ -26,7 +26,7 @@ theorem phaseA_solved_test (e : Env K n p m) (iter0 : Bool) (w : Work K n p m) (
     · simp at h
     · split at h <;> simp at h
 
-omit [Sub K] [Div K] [Neg K] [Zero K] [One K] [LE K] [DecidableLE K] [NatCast K] [DecidableEq K] in
+omit [Sub K] [Div K] [Neg K] [Zero K] [One K] [LE K] [DecidableLE K] [NatCast K] [BEq K] in
 /-- what the termination test says, clause by clause -/
 theorem termTest_iff (st : Settings K) (info : Info K) :
     termTest st info = true ↔
